@@ -8,7 +8,7 @@ import numpy as np
 from hypothesis import strategies as st
 
 from vf import forms, gens
-from vf.core import Result, lib
+from vf.core import Result, history_independent, lib
 
 ID = "C12"
 TITLE = "Black-oil correlations are continuous and correctly ordered at the bubble point"
@@ -161,6 +161,11 @@ def check_case(case) -> Result:
         below_a = ~above_a
         if below_a.sum() >= 2 and np.any(np.diff(bo_a[below_a]) <= 0) and np.min(np.diff(pa[below_a])) > 1e-6 * pb:
             res.bad("C12/fvf-rises-below", f"{label}: Bo does not rise below p_b: {bo_a[below_a][:6]} oil={o}")
+    # the correlations are functions of their arguments only: another oil (other GOR, gravity, temperature) evaluated
+    # in between must not change the values of this one
+    pq = float(ps[len(ps) // 2])
+    for name, fn in (("pressure_bubblepoint_Standing", lambda *a: O.pressure_bubblepoint_Standing(a[0], a[2], a[3], a[4])), ("solution_gor_Standing", O.solution_gor_Standing), ("b_o_Standing", O.b_o_Standing), ("viscosity_beggs_robinson", O.viscosity_beggs_robinson), ("density_Standing", O.density_Standing)):
+        lib(name, history_independent, res, "C12/independent-of-call-history", fn, (T, pq, api, sg, gor), [(T, pq, api, sg, gor * 1.7), (T + 1e-3, pq, api, sg, gor), (T, 0.5 * pq, api + 2, sg * 1.01, gor), (T, pq, api, sg, gor + 1e-6 * gor)], name)
     if min(mu) <= 0:
         res.bad("C12/positive", f"viscosity {min(mu)!r} <= 0 oil={o}")
     if co and min(co) <= 0:
